@@ -543,8 +543,19 @@ func (root *Root) validateTypeName(typeName string, t Type) (errs []error) {
 }
 
 func (root *Root) validateDirUses(t Type) (errs []error) {
+	seen := map[string]bool{}
 	for _, du := range t.Directives() {
 		errs = append(errs, root.validateDirUse(t.Name(), Locate(t), du)...)
+		// A directive is used once at a location, an extension that
+		// repeats one is refused as well.
+		if du.Directive != nil {
+			name := du.Directive.Name()
+			if seen[name] {
+				errs = append(errs, fmt.Errorf("%w, directive @%s is repeated on %s at %d:%d",
+					ErrValidation, name, t.Name(), du.line, du.col))
+			}
+			seen[name] = true
+		}
 	}
 	return
 }
